@@ -11,6 +11,14 @@ PY = "/venv/bin/python"
 
 # property -> (technique, level text, level note, design ref)
 CLAIMED = {
+    "C12": ("TLA+ specification of stack / concatenate (spec/MC_C12.tla: matching by dimension name and label, refusal on mismatching secondary "
+            "axes, outer alignment with align=True) model-checked by TLC (StackSound, ConcatSound, RefuseIffMismatch) and replayed",
+            "TLC enumerates lists of 1-2 two-dimensional (thorough 1-3) and 1-3 one-dimensional arrays whose later members list the dims in the same "
+            "or swapped order (square shapes included) with secondary labels equal / permuted / overlapping / disjoint, x stack / concatenate along "
+            "each dim x align x sort; expected result or ValueError from the spec; replay with list / tuple / dict containers, int / str / default "
+            "keys, axis by name / position.",
+            "Trusted: TLC, projection/concretisation, NumPy. Where only the dimension order differs, both the by-name result and ValueError are accepted.",
+            "5 (C12)"),
     "C11": ("TLA+ specification of flatten / unflatten / reshape on arrays with grouped axes (spec/MC_C11.tla: row-major product labels, "
             "member axes, composition for reshape) model-checked by TLC (LosslessGrouping, RoundTrip, Naming) and replayed",
             "TLC enumerates every ordered subset of dims x insert position x container kind (tuple/list/set) for 1-3-d templates (thorough 1-4-d), "
